@@ -1,5 +1,6 @@
 """C21 (partial) -- DT-ProbLog search procedures: enumeration completeness, paired best-score/strategy updates, flip/undo discipline."""
 import ast
+import re
 
 from ..index import AnalysisError, norm, walk_no_nested
 from ..astutil import dotted, const_value
@@ -20,6 +21,7 @@ EXPLANATION = (
     "full pass without improvement (the pass reaches the last improved decision again, or no decision was ever improved); it returns the current "
     "strategy with the incumbent score; T5 every result dtproblog() returns carries a score obtained from evaluate() through one of the two searches - "
     "not a literal."
+    " Added after seed round 7: T3 also reports a queried literal that the scoring loop skips."
 )
 TECHNIQUE = "static analysis: decision tables of the search loops (paired-update and flip/undo typestate), enumeration bounds by constant folding, sign-pairing patterns"
 LEVEL_TEXT = EXPLANATION
@@ -202,8 +204,13 @@ def rule_t3(repo, col):
     pos_t = ("%s*float%s.get%s,0.0" % (pr, utilities, r)).replace("(", "").replace(")", "")
     neg_t = ("1.0-%s*float%s.get-%s,0.0" % (pr, utilities, r)).replace("(", "").replace(")", "")
     n_neg = 0
+    # the accumulator: the name returned by evaluate (initialised before the loop)
+    rets_ = [norm(x.value) for x in ast.walk(f.node) if isinstance(x, ast.Return) and isinstance(x.value, ast.Name)]
+    accn = rets_[-1] if rets_ else "score"
     for p in paths:
-        acc = p.env.get("score")
+        acc = p.env.get(accn)
+        if acc is not None and accn != "score":
+            acc = re.sub(r"\b%s\b" % re.escape(accn), "score", acc)
         if acc is None:
             if p.end in ("continue", "fall") and p.conds:
                 col.fail("T3", m, lp, "evaluate skips a queried literal without adding P(r) * utility(r) (when %s): every key of the result is a literal whose utility was declared, and a "
@@ -237,9 +244,9 @@ def rule_t3(repo, col):
     if n_neg == 0:
         col.fail("T3", m, lp, "evaluate never accounts for the utility of the complement of a queried literal", construct="score accumulation: complement term", function="evaluate")
     rets = [x for x in walk_no_nested(f.node) if isinstance(x, ast.Return)]
-    col.decide("T3", m, rets[0] if rets else f.node, len(rets) == 1 and norm(rets[0].value) == "score", "the accumulated score is returned", "evaluate must return the accumulated score",
+    col.decide("T3", m, rets[0] if rets else f.node, len(rets) == 1 and norm(rets[0].value) == accn, "the accumulated score is returned", "evaluate must return the accumulated score",
                **({} if rets else {"construct": "def evaluate: return", "function": "evaluate"}))
-    inits = [st for st in f.node.body if isinstance(st, ast.Assign) and norm(st.targets[0]) == "score"]
+    inits = [st for st in f.node.body if isinstance(st, ast.Assign) and norm(st.targets[0]) == accn]
     col.decide("T3", m, inits[0] if inits else f.node, len(inits) == 1 and const_value(inits[0].value) in ((True, 0.0), (True, 0)), "the score starts at 0", "the score must start at 0.0",
                **({} if inits else {"construct": "def evaluate: init", "function": "evaluate"}))
 
